@@ -4,6 +4,7 @@ import (
 	"errors"
 	"net"
 	"os"
+	"sync"
 	"time"
 )
 
@@ -15,36 +16,53 @@ import (
 // its captured variables bound by type), with the real handleInputCommand / handlers / writeAOF / flushAOF.
 // The socket and the log file are models; the server lock is a blocking ghost lock.
 
-//verif:visible (*github.com/tidwall/tile38/internal/server.vhBLock).Lock
-//verif:visible (*github.com/tidwall/tile38/internal/server.vhBLock).Unlock
-//verif:visible (*github.com/tidwall/tile38/internal/server.vhBLock).RLock
-//verif:visible (*github.com/tidwall/tile38/internal/server.vhBLock).RUnlock
-//verif:visible (*github.com/tidwall/tile38/internal/server.vhConn).Write
-//verif:visible (*github.com/tidwall/tile38/internal/server.vhConn).Read
+// Visible operations (context-switch points): the lock operations and socket reads/writes announce
+// themselves with vgate(op); the two atomics of the dirty flag are matched by name.
 //verif:visible (*sync/atomic.Bool).Load
 //verif:visible (*sync/atomic.Bool).Store
 
 // vhBLock: a readers-writer lock for interpreted threads (blocks by waiting for another thread's step).
 type vhBLock struct {
+	mu      sync.Mutex // only for the native replay, where the threads are real goroutines
 	writer  bool
 	readers int
 }
 
 func (l *vhBLock) Lock() {
+	vgate("Lock")
+	l.mu.Lock()
 	for l.writer || l.readers > 0 {
+		l.mu.Unlock()
 		vwait()
+		l.mu.Lock()
 	}
 	l.writer = true
+	l.mu.Unlock()
 }
 func (l *vhBLock) LockLowPriority() { l.Lock() }
-func (l *vhBLock) Unlock()          { l.writer = false }
+func (l *vhBLock) Unlock() {
+	vgate("Unlock")
+	l.mu.Lock()
+	l.writer = false
+	l.mu.Unlock()
+}
 func (l *vhBLock) RLock() {
+	vgate("RLock")
+	l.mu.Lock()
 	for l.writer {
+		l.mu.Unlock()
 		vwait()
+		l.mu.Lock()
 	}
 	l.readers++
+	l.mu.Unlock()
 }
-func (l *vhBLock) RUnlock() { l.readers-- }
+func (l *vhBLock) RUnlock() {
+	vgate("RUnlock")
+	l.mu.Lock()
+	l.readers--
+	l.mu.Unlock()
+}
 
 // the log file model: bytes handed to the file so far
 var vhLogFile []byte
@@ -71,9 +89,21 @@ type vhConn struct {
 	marker  []string // what must be in the log file once the reply to packet i is written
 	acked   int
 	id      int
+	closed  bool
+}
+
+var vhNativeAckFailed bool
+
+func vhLogContent(s *Server) string {
+	if vnative() {
+		b, _ := os.ReadFile(s.aof.Name())
+		return string(b)
+	}
+	return string(vhLogFile)
 }
 
 func (c *vhConn) Read(p []byte) (int, error) {
+	vgate("Read")
 	if c.next >= len(c.packets) {
 		return 0, errors.New("closed")
 	}
@@ -84,14 +114,30 @@ func (c *vhConn) Read(p []byte) (int, error) {
 
 // Write is the moment the acknowledgement leaves the server.
 func (c *vhConn) Write(p []byte) (int, error) {
+	vgate("Write")
 	want := string(vhEncodeCmd(c.marker))
-	vassert("C08.acknowledged_write_is_in_the_log_file", vhContains(string(vhLogFile), want))
+	ok := vhContains(vhLogContent(c.s), want)
+	if vnative() && !ok {
+		// the replay runs on server goroutines: record, the harness goroutine asserts
+		vhNativeAckFailed = true
+	} else {
+		vassert("C08.acknowledged_write_is_in_the_log_file", ok)
+	}
 	c.acked++
 	return len(p), nil
 }
-func (c *vhConn) Close() error                       { return nil }
-func (c *vhConn) LocalAddr() net.Addr                { return vhAddr{} }
-func (c *vhConn) RemoteAddr() net.Addr               { return vhAddr{} }
+func (c *vhConn) Close() error {
+	c.closed = true
+	return nil
+}
+func (c *vhConn) LocalAddr() net.Addr { return vhAddr{} }
+
+// RemoteAddr is the first thing the connection closure asks for: the replay learns here which
+// goroutine serves which connection.
+func (c *vhConn) RemoteAddr() net.Addr {
+	vregisterThread(c.id)
+	return vhAddr{}
+}
 func (c *vhConn) SetDeadline(t time.Time) error      { return nil }
 func (c *vhConn) SetReadDeadline(t time.Time) error  { return nil }
 func (c *vhConn) SetWriteDeadline(t time.Time) error { return nil }
@@ -110,7 +156,16 @@ func vhContains(s, sub string) bool {
 func vhAckServer() *Server {
 	s := vhServer()
 	s.mu = &vhBLock{}
-	s.aof = new(os.File)
+	if vnative() {
+		f, err := os.CreateTemp("", "verif-ack-aof-*")
+		if err != nil {
+			panic(err)
+		}
+		s.aof = f
+		vhNativeAckFailed = false
+	} else {
+		s.aof = new(os.File)
+	}
 	s.loadedAndReady.Store(true)
 	s.luascripts = s.newScriptMap()
 	s.luapool = s.newPool()
@@ -135,7 +190,7 @@ func VH_C08_one_connection() {
 	default:
 		c = vhConnFor(s, 0, []string{"EVALNA", "return tile38.call('set','k','a','POINT',1,2)", "0"}, []string{"set", "k", "a", "POINT", "1", "2"})
 	}
-	vcallAnon("(*Server).netServe", s, net.Conn(c))
+	vhServeConns(s, c)
 	vassert("C08.reply_was_sent", c.acked == 1)
 }
 
@@ -146,9 +201,25 @@ func VH_C08_two_connections() {
 	s := vhAckServer()
 	a := vhConnFor(s, 0, []string{"SET", "k", "a", "POINT", "1", "2"}, []string{"SET", "k", "a", "POINT", "1", "2"})
 	b := vhConnFor(s, 1, []string{"SET", "k", "b", "POINT", "3", "4"}, []string{"SET", "k", "b", "POINT", "3", "4"})
-	vspawn(func() { vcallAnon("(*Server).netServe", s, net.Conn(a)) })
-	vspawn(func() { vcallAnon("(*Server).netServe", s, net.Conn(b)) })
-	vrunThreads()
-	vobs("schedule", vschedule())
+	vhServeConns(s, a, b)
 	vassert("C08.both_replies_sent", a.acked == 1 && b.acked == 1)
+}
+
+// vhServeConns runs the connection closure of netServe for each connection: as interpreted threads in the
+// engine; natively through the real netServe accept loop (fake listener), forced through the schedule.
+func vhServeConns(s *Server, conns ...*vhConn) {
+	if vnative() {
+		vhNativeServe(s, conns)
+		vassert("C08.acknowledged_write_is_in_the_log_file", !vhNativeAckFailed)
+		return
+	}
+	if len(conns) == 1 {
+		vcallAnon("(*Server).netServe", s, net.Conn(conns[0]))
+		return
+	}
+	for _, c := range conns {
+		c := c
+		vspawn(func() { vcallAnon("(*Server).netServe", s, net.Conn(c)) })
+	}
+	vrunThreads()
 }
